@@ -69,7 +69,8 @@ prop("C02",
           "wraps / many wraps / 2026 / 2090). The MPD is parsed with encoding/xml; every adaptation set is expanded to its declared segments "
           "(explicit S entries, or implicit duration/startNumber/AST/tsbd/ato); up to 10 declared segments per representation are fetched at "
           "the same instant: 200 with the declared time/duration/number; the segment after the live edge: 425; timeline contiguous, newest "
-          "entry = newest ended segment by the reference model, first entry within one segment of the window start. Non-trivial = an MPD "
+          "entry = newest ended segment by the reference model, first entry within one segment of the window start; with an offset below a segment "
+          "the newest thumbnail is also requested with chunkdur_ added (200, byte-identical). Non-trivial = an MPD "
           "declaring >= 2 segments; distinct by hash of the case.",
      quick=dict(shards=2, timeout=400), thorough=dict(shards=16, timeout=1500, pct=500),
      assumptions=COMMON + ["$Number$ templates on assets with non-constant durations are judged within the asset's duration variation, as the property states",
@@ -115,7 +116,7 @@ prop("C18",
                            "a box with size < 8 must make Parse terminate with an error or with everything delivered"])
 
 prop("C14",
-     rule="(1) status codes: rapid draws 1-3 simultaneous patterns (cycle 1 s .. 12 segment durations incl. cycles shorter than / not divisible "
+     rule="(1) status codes (video, audio and thumbnail representations): rapid draws 1-3 simultaneous patterns (cycle 1 s .. 12 segment durations incl. cycles shorter than / not divisible "
           "by the segment duration, rsq 0..5, code 400..599, rep filter = own id / other id / * / none), asset bundled or generated, video or "
           "audio representation, addressing Number/Time/Timeline-Number, start, startNumber; all segments over >= 4 cycles (also far from the "
           "start) are requested: exactly the code for the rsq-th segment starting in its cycle, otherwise a response byte-identical to the one "
@@ -133,7 +134,7 @@ prop("C13",
           "of the 33-bit PTS wrap at minute 1590, N in 1..3) covering 2-4 minutes: every scheduled splice has exactly one carrier whose closed "
           "interval contains splice-7 s, no unscheduled events; each emsg: id, presentation time, duration and an own parse of the "
           "splice_info_section (pts mod 2^33, break duration, out_of_network, CRC-32/MPEG-2). (2) HTTP: bundled/generated assets, all video "
-          "segments over 3 minutes with scte35_N: same oracle, a third of the 2/6/8 s cases in chunked low-latency delivery; no emsg in audio or subtitle (stpp) segments, bundled and generated; InbandEventStream on video only; N outside 1..3 rejected "
+          "segments over 3 minutes with scte35_N: same oracle, a third of the 2/6/8 s cases in chunked low-latency delivery; no emsg in audio or subtitle (stpp) segments, bundled and generated; InbandEventStream on video only, in every Period of the multi-period MPD as well (periods_60 on the 2 s and 6 s assets); N outside 1..3 rejected "
           "with 4xx. Non-trivial = a case in which a segment spans a minute start or the announce instant equals a segment boundary.",
      quick=dict(shards=2, timeout=400), thorough=dict(shards=16, timeout=1500, pct=300), assumptions=COMMON)
 
@@ -169,7 +170,7 @@ prop("C10",
           "URL and instant; ciphertext must differ from the clear payload. Plus: an asset built from livesim2's own encrypted output is "
           "refused with eccp_cenc/eccp_cbcs (MPD and segments, Number and Time). Chunked cases use ato 3/4 + chunkdur 1/4 of the segment, or chunkdur alone, or a tiny offset. Besides the repository's two CPIX packages the server of the "
           "bundled assets is also run with three packages derived from the one-key test package (scheme cenc; cbcs and cenc without the "
-          "optional explicitIV: such a package may be refused, but whatever is served must decrypt); generated layouts may declare avc3 video. "
+          "optional explicitIV: such a package may be refused, but whatever is served must decrypt); generated layouts may declare avc3 video and may carry @codecs on the AdaptationSet. "
           "Non-trivial = a segment with protected payload that decrypted "
           "to the clear samples; distinct by hash of the case.",
      quick=dict(shards=2, timeout=400), thorough=dict(shards=16, timeout=1500, pct=800),
@@ -273,7 +274,7 @@ prop("C19",
 
 prop("C16",
      rule="rapid draws 1-3 concurrent step-mode sessions on one server (asset bundled or generated uniform layout; $Number$, SegmentTimeline-$Time$ or SegmentTimeline-$Number$ "
-          "URL; optional generated stpp/wvtt subtitles; Streams() or per-segment URLs; with/without credentials; optional duration of 1-4 "
+          "URL; optional generated stpp/wvtt subtitles; Streams() or per-segment URLs; with/without credentials; receivers answering 200, 201 or 204; optional duration of 1-4 "
           "segments; testNowMS near 1e4..1.7e12; normal or slow receiver) and a history of 3-14 REST operations (step, info, delete) over the "
           "sessions. Each session has its own recording httptest receiver. After every operation the request log of every session is "
           "judged: init segment first per representation (same handler, sample entry and timescale as the init segment livesim2 serves for it), DASH-IF-Ingest 1.1, credentials, CMAF extension and content type, exactly one more "
@@ -302,7 +303,7 @@ prop("C07",
           "timeline, periods, DRM/ECCP, chunked, subtitles, SCTE-35, patch, ...) and a multiset of 6-30 requests (MPD, init, media of any "
           "representation around the live edge, generated subtitles, MPD patch, pages, ingest API calls); DRM options are drawn more often, and "
           "requests get sibling requests that differ in one related option (other CPIX package of the same scheme, other scheme, other timeline "
-          "flavour, other tsbd/snr/start ...), so that an answer cached under an incomplete key shows as history dependence. Oracle: the (status, "
+          "flavour, other tsbd/snr/start ...), so that an answer cached under an incomplete key shows as history dependence; the option pool has stop times between the drawn instants, so one URL is asked on both sides of its stop time. Oracle: the (status, "
           "content type, body hash) of every non-API request on a fresh instance in generated order is the reference; the same "
           "requests must give the same answer when repeated within that pass, on the long-running shared instance in a permuted order "
           "(twice), on an instance loaded from representation-data files, and when the multiset is served 1-3 times by 2-16 concurrent "
